@@ -123,8 +123,16 @@ func c09(t *Term) string {
 		words = append(words, string(s.Bytes()))
 	}
 	f := text.NewFile("f", raw)
-	f.SetOffset(off)
-	r := text.NewReader(f)
+	var r *text.Reader
+	if (len(raw)+off)%2 == 0 {
+		// the reader may exist before the file is placed (FileSet.AddFile assigns the base offset
+		// later, as in the library's own JSON benchmark): both orders must behave the same
+		r = text.NewReader(f)
+		f.SetOffset(off)
+	} else {
+		f.SetOffset(off)
+		r = text.NewReader(f)
+	}
 	var rows []string
 	for c := 0; c <= f.Len(); c++ {
 		pos := parsley.Pos(off + c)
